@@ -1,63 +1,521 @@
 package interp
 
 import (
+	"fmt"
 	"go/token"
 	"go/types"
+	"os"
+	"runtime"
 
 	"golang.org/x/tools/go/ssa"
 )
 
-// Concurrency layer (placeholder until the cooperative scheduler lands): any use of goroutines,
-// channels or select marks the path incomplete.
+// Concurrency layer: guest goroutines run one at a time under a cooperative scheduler. A
+// goroutine yields at every synchronisation operation (go, channel send/receive/close, select,
+// mutex/cond/once/waitgroup/atomic operations, goroutine exit); when more than one goroutine
+// is runnable at a yield the next one is an n-way choice explored like any other decision, so
+// interleavings are enumerated through the same mechanism as data branches. Channels, mutexes
+// and condition variables follow the Go memory model; happens-before edges feed the optional
+// vector-clock race detector.
+
+const (
+	gRunnable = iota
+	gBlocked
+	gDone
+)
+
+type goroutine struct {
+	id       int
+	resume   chan struct{}
+	exited   chan struct{}
+	state    int
+	waitDesc string
+	kill     bool
+	isMain   bool
+	curFr    *frame
+	depth    int
+	vc       []int
+}
 
 type chanState struct {
 	buf    []value
 	closed bool
 }
 
+type waiter struct {
+	g        *goroutine
+	val      value // value to send
+	got      value // value received
+	ok       bool
+	sel      *selectWait
+	caseIdx  int
+	done     bool
+	panicMsg string
+	vc       []int
+}
+
+type selectWait struct {
+	done   bool
+	chosen int
+	w      *waiter
+}
+
 type gochan struct {
 	capacity int
 	elem     types.Type
 	st       chanState
+	recvq    []*waiter
+	sendq    []*waiter
+	vc       []int
+	bufVC    [][]int
 }
-
-type raceDetector struct{}
-
-func (r *raceDetector) access(i *interpreter, addr *value, write bool) {}
-
-type goroutine struct{ id int }
 
 type scheduler struct {
+	i        *interpreter
+	gs       []*goroutine
+	cur      *goroutine
+	abort    interface{}
 	inAtomic int
+	switches int
+	preemptions int
 }
 
-func (s *scheduler) finishMain()                                                  {}
-func (s *scheduler) lock(i *interpreter, p *value, ls *lockState)                 {}
-func (s *scheduler) unlock(i *interpreter, p *value, ls *lockState)               {}
-func (s *scheduler) yield(i *interpreter, why string)                             {}
-func (s *scheduler) wgChanged(i *interpreter, p *value)                           {}
-func (s *scheduler) wgWait(i *interpreter, p *value)                              {}
-func (s *scheduler) condWait(i *interpreter, fr *frame, p *value, cs *condState)  {}
-func (s *scheduler) condSignal(i *interpreter, cs *condState, all bool)           {}
+type goexit struct{}
 
+func (i *interpreter) ensureSched() *scheduler {
+	if i.sched == nil {
+		s := &scheduler{i: i}
+		m := &goroutine{id: 0, resume: make(chan struct{}), exited: make(chan struct{}), isMain: true}
+		s.gs = []*goroutine{m}
+		s.cur = m
+		m.vc = []int{1}
+		i.sched = s
+	}
+	return i.sched
+}
+
+var schedTrace = os.Getenv("SYMGO_SCHEDTRACE") != ""
+
+func (s *scheduler) trace(format string, args ...interface{}) {
+	if schedTrace {
+		fmt.Fprintf(os.Stderr, "[sched %p cur=g%d] "+format+"\n", append([]interface{}{s, s.cur.id}, args...)...)
+	}
+}
+
+func (s *scheduler) runnable() []*goroutine {
+	var out []*goroutine
+	for _, g := range s.gs {
+		if g.state == gRunnable {
+			out = append(out, g)
+		}
+	}
+	return out
+}
+
+// switchTo hands the baton to g and parks the current goroutine until it is resumed.
+func (s *scheduler) switchTo(g *goroutine) {
+	cur := s.cur
+	if g == cur {
+		return
+	}
+	i := s.i
+	cur.curFr, cur.depth = i.curFr, i.depth
+	s.trace("switch to g%d", g.id)
+	s.cur = g
+	s.switches++
+	i.curFr, i.depth = g.curFr, g.depth
+	// decide before handing the baton over: afterwards only g may touch shared state
+	exiting := cur.state == gDone && !cur.isMain
+	g.resume <- struct{}{}
+	if exiting {
+		return // the host goroutine of a finished guest goroutine just ends
+	}
+	<-cur.resume
+	s.afterResume(cur)
+}
+
+func (s *scheduler) afterResume(g *goroutine) {
+	i := s.i
+	if g.kill {
+		panic(goexit{})
+	}
+	if g.isMain && s.abort != nil {
+		a := s.abort
+		s.abort = nil
+		panic(a)
+	}
+	i.curFr, i.depth = g.curFr, g.depth
+}
+
+// yield is a scheduling point: any runnable goroutine may run next.
+func (s *scheduler) yield(i *interpreter, why string) {
+	rs := s.runnable()
+	if len(rs) <= 1 {
+		if len(rs) == 1 && rs[0] != s.cur {
+			s.switchTo(rs[0])
+		}
+		return
+	}
+	// context bounding: at most MaxPreemptions switches away from a goroutine that could have
+	// continued (switches forced by blocking or exit are free)
+	curRunnable := s.cur.state == gRunnable
+	if curRunnable && s.preemptions >= i.sh.cfg.MaxPreemptions {
+		return
+	}
+	k := i.freeChoice(len(rs), "sched:"+why)
+	if curRunnable && rs[k] != s.cur {
+		s.preemptions++
+	}
+	s.switchTo(rs[k])
+}
+
+// block parks the current goroutine until another goroutine wakes it.
+func (s *scheduler) block(why string) {
+	i := s.i
+	cur := s.cur
+	cur.state = gBlocked
+	cur.waitDesc = why
+	s.trace("block: %s", why)
+	rs := s.runnable()
+	if len(rs) == 0 {
+		cur.state = gRunnable
+		desc := ""
+		for _, g := range s.gs {
+			if g.state == gBlocked || g == cur {
+				d := g.waitDesc
+				if g == cur {
+					d = why
+				}
+				desc += fmt.Sprintf(" g%d:%s", g.id, d)
+			}
+		}
+		i.deadlock("all goroutines are blocked:" + desc)
+	}
+	k := 0
+	if len(rs) > 1 {
+		k = i.freeChoice(len(rs), "sched:block")
+	}
+	s.switchTo(rs[k])
+}
+
+func (s *scheduler) wake(g *goroutine) {
+	if g.state == gBlocked {
+		g.state = gRunnable
+	}
+}
+
+// spawn starts a guest goroutine.
 func (i *interpreter) spawn(fr *frame, pos token.Pos, fn value, args []value) {
-	panic(unsupported("go statement (scheduler not enabled)"))
+	s := i.ensureSched()
+	g := &goroutine{id: len(s.gs), resume: make(chan struct{}), exited: make(chan struct{})}
+	// happens-before: everything before the go statement precedes the new goroutine
+	g.vc = make([]int, len(s.gs)+1)
+	copy(g.vc, s.cur.vc)
+	g.vc[g.id] = 1
+	s.tick(s.cur)
+	s.gs = append(s.gs, g)
+	go func() {
+		defer close(g.exited)
+		<-g.resume
+		defer func() {
+			r := recover()
+			if _, ok := r.(goexit); ok {
+				return
+			}
+			g.state = gDone
+			if r != nil {
+				if tp, ok := r.(targetPanic); ok {
+					// an uncaught panic in any goroutine brings the process down
+					s.abort = pathAbort{"violation", "goroutine-panic"}
+					i.pendingGoroutinePanic = "panic in goroutine: " + toString(tp.v)
+				} else {
+					s.abort = r
+				}
+				s.resumeMainForAbort()
+				return
+			}
+			s.goroutineExit(g)
+		}()
+		if g.kill {
+			panic(goexit{})
+		}
+		i.curFr, i.depth = nil, 0
+		i.call(nil, pos, fn, args)
+	}()
+	s.yield(i, "go")
 }
+
+func (s *scheduler) resumeMainForAbort() {
+	s.trace("resume main for abort %v", s.abort)
+	m := s.gs[0]
+	s.cur = m
+	m.state = gRunnable
+	m.resume <- struct{}{}
+}
+
+func (s *scheduler) goroutineExit(g *goroutine) {
+	i := s.i
+	s.trace("exit g%d", g.id)
+	rs := s.runnable()
+	if len(rs) == 0 {
+		// everybody else is blocked: if main is blocked this is a deadlock
+		m := s.gs[0]
+		if m.state == gBlocked {
+			desc := ""
+			for _, x := range s.gs {
+				if x.state == gBlocked {
+					desc += fmt.Sprintf(" g%d:%s", x.id, x.waitDesc)
+				}
+			}
+			s.abortWith(func() { i.deadlock("all goroutines are blocked:" + desc) })
+			s.resumeMainForAbort()
+		}
+		return
+	}
+	k := 0
+	if len(rs) > 1 {
+		var err interface{}
+		func() {
+			defer func() { err = recover() }()
+			k = i.freeChoice(len(rs), "sched:exit")
+		}()
+		if err != nil {
+			s.abort = err
+			s.resumeMainForAbort()
+			return
+		}
+	}
+	next := rs[k]
+	s.cur = next
+	i.curFr, i.depth = next.curFr, next.depth
+	next.resume <- struct{}{}
+}
+
+// abortWith runs f (which panics with a path abort) and stores the abort for main.
+func (s *scheduler) abortWith(f func()) {
+	defer func() {
+		if r := recover(); r != nil {
+			s.abort = r
+		}
+	}()
+	f()
+}
+
+// finishMain is called when the harness entry returns.
+func (s *scheduler) finishMain() {}
+
+// killAll terminates the host goroutines of every unfinished guest goroutine (path end).
+func (s *scheduler) killAll() {
+	s.trace("killAll")
+	for _, g := range s.gs[1:] {
+		if g.state == gDone {
+			continue
+		}
+		g.kill = true
+		g.state = gDone
+		select {
+		case g.resume <- struct{}{}:
+		default:
+			// never started or parked elsewhere: deliver asynchronously
+			go func(g *goroutine) { g.resume <- struct{}{} }(g)
+		}
+		<-g.exited
+	}
+}
+
+// ---- vector clocks ----
+
+func (s *scheduler) tick(g *goroutine) {
+	for len(g.vc) <= g.id {
+		g.vc = append(g.vc, 0)
+	}
+	g.vc[g.id]++
+}
+
+func vcJoin(dst *[]int, src []int) {
+	for len(*dst) < len(src) {
+		*dst = append(*dst, 0)
+	}
+	for k, v := range src {
+		if v > (*dst)[k] {
+			(*dst)[k] = v
+		}
+	}
+}
+
+func vcCopy(src []int) []int { return append([]int(nil), src...) }
+
+// release: the object's clock absorbs the goroutine's; acquire: the reverse.
+func (s *scheduler) release(obj *[]int) {
+	vcJoin(obj, s.cur.vc)
+	s.tick(s.cur)
+}
+
+func (s *scheduler) acquire(obj []int) {
+	vcJoin(&s.cur.vc, obj)
+}
+
+// ---- channels ----
 
 func (i *interpreter) makeChan(n int, elem types.Type) *gochan {
 	return &gochan{capacity: n, elem: elem}
 }
 
+func popWaiter(q *[]*waiter) *waiter {
+	for len(*q) > 0 {
+		w := (*q)[0]
+		*q = (*q)[1:]
+		if w.done || (w.sel != nil && w.sel.done) {
+			continue
+		}
+		return w
+	}
+	return nil
+}
+
+func hasWaiter(q []*waiter) bool {
+	for _, w := range q {
+		if !(w.done || (w.sel != nil && w.sel.done)) {
+			return true
+		}
+	}
+	return false
+}
+
+func (s *scheduler) complete(w *waiter) {
+	w.done = true
+	if w.sel != nil {
+		w.sel.done = true
+		w.sel.chosen = w.caseIdx
+		w.sel.w = w
+	}
+	s.wake(w.g)
+}
+
 func (i *interpreter) chanSend(c *gochan, v value) {
-	panic(unsupported("channel send (scheduler not enabled)"))
+	s := i.ensureSched()
+	s.yield(i, "send")
+	i.chanSendNow(c, v)
+}
+
+func (i *interpreter) chanSendNow(c *gochan, v value) {
+	s := i.ensureSched()
+	if c == nil {
+		s.block("send on nil channel")
+		return
+	}
+	if c.st.closed {
+		i.guestPanic("send on closed channel")
+	}
+	if w := popWaiter(&c.recvq); w != nil {
+		w.got, w.ok = v, true
+		// synchronous hand-off: both sides synchronise
+		w.vc = vcCopy(s.cur.vc)
+		s.tick(s.cur)
+		s.complete(w)
+		return
+	}
+	if len(c.st.buf) < c.capacity {
+		c.st.buf = append(c.st.buf, v)
+		c.bufVC = append(c.bufVC, vcCopy(s.cur.vc))
+		s.tick(s.cur)
+		return
+	}
+	w := &waiter{g: s.cur, val: v, vc: vcCopy(s.cur.vc)}
+	s.tick(s.cur)
+	c.sendq = append(c.sendq, w)
+	s.block("chan send")
+	if w.panicMsg != "" {
+		i.guestPanic(w.panicMsg)
+	}
 }
 
 func (i *interpreter) chanRecv(c *gochan, commaOk bool, elem types.Type) value {
-	panic(unsupported("channel receive (scheduler not enabled)"))
+	s := i.ensureSched()
+	s.yield(i, "recv")
+	v, ok := i.chanRecvNow(c, elem)
+	if commaOk {
+		return tuple{v, ok}
+	}
+	return v
+}
+
+func (i *interpreter) chanRecvNow(c *gochan, elem types.Type) (value, bool) {
+	s := i.ensureSched()
+	if c == nil {
+		s.block("receive from nil channel")
+		return zero(elem), false
+	}
+	if len(c.st.buf) > 0 {
+		v := c.st.buf[0]
+		c.st.buf = c.st.buf[1:]
+		if len(c.bufVC) > 0 {
+			s.acquire(c.bufVC[0])
+			c.bufVC = c.bufVC[1:]
+		}
+		if w := popWaiter(&c.sendq); w != nil {
+			c.st.buf = append(c.st.buf, w.val)
+			c.bufVC = append(c.bufVC, w.vc)
+			s.complete(w)
+		}
+		return v, true
+	}
+	if w := popWaiter(&c.sendq); w != nil {
+		s.acquire(w.vc)
+		vcJoin(&w.g.vc, s.cur.vc) // unbuffered: the receive also happens before the send completes
+		s.tick(s.cur)
+		s.complete(w)
+		return w.val, true
+	}
+	if c.st.closed {
+		s.acquire(c.vc)
+		return zero(elem), false
+	}
+	w := &waiter{g: s.cur}
+	c.recvq = append(c.recvq, w)
+	s.block("chan receive")
+	if w.vc != nil {
+		s.acquire(w.vc)
+	}
+	if !w.ok {
+		return zero(elem), false
+	}
+	return w.got, true
 }
 
 func (i *interpreter) chanClose(c *gochan) {
-	panic(unsupported("channel close (scheduler not enabled)"))
+	if c == nil {
+		i.guestPanic("close of nil channel")
+	}
+	if c.st.closed {
+		i.guestPanic("close of closed channel")
+	}
+	if i.inInit && i.sched == nil {
+		c.st.closed = true
+		return
+	}
+	s := i.ensureSched()
+	s.yield(i, "close")
+	c.st.closed = true
+	vcJoin(&c.vc, s.cur.vc)
+	s.tick(s.cur)
+	for {
+		w := popWaiter(&c.recvq)
+		if w == nil {
+			break
+		}
+		w.ok = false
+		w.vc = vcCopy(c.vc)
+		s.complete(w)
+	}
+	for {
+		w := popWaiter(&c.sendq)
+		if w == nil {
+			break
+		}
+		w.panicMsg = "send on closed channel"
+		s.complete(w)
+	}
 }
 
 func (i *interpreter) chanLen(c *gochan) int {
@@ -68,5 +526,168 @@ func (i *interpreter) chanLen(c *gochan) int {
 }
 
 func (i *interpreter) selectStmt(fr *frame, instr *ssa.Select) value {
-	panic(unsupported("select (scheduler not enabled)"))
+	s := i.ensureSched()
+	s.yield(i, "select")
+	type scase struct {
+		c    *gochan
+		send bool
+		val  value
+		elem types.Type
+	}
+	cases := make([]scase, len(instr.States))
+	for k, st := range instr.States {
+		c := fr.get(st.Chan).(*gochan)
+		cases[k] = scase{c: c, send: st.Dir == types.SendOnly, elem: st.Chan.Type().Underlying().(*types.Chan).Elem()}
+		if st.Send != nil {
+			cases[k].val = fr.get(st.Send)
+		}
+	}
+	result := func(chosen int, got value, ok bool) value {
+		r := tuple{chosen, ok}
+		for k, st := range instr.States {
+			if st.Dir == types.RecvOnly {
+				if k == chosen && ok {
+					r = append(r, got)
+				} else {
+					r = append(r, zero(cases[k].elem))
+				}
+			}
+		}
+		return r
+	}
+	var ready []int
+	for k, c := range cases {
+		if c.c == nil {
+			continue
+		}
+		if c.send {
+			if c.c.st.closed || hasWaiter(c.c.recvq) || len(c.c.st.buf) < c.c.capacity {
+				ready = append(ready, k)
+			}
+		} else if len(c.c.st.buf) > 0 || hasWaiter(c.c.sendq) || c.c.st.closed {
+			ready = append(ready, k)
+		}
+	}
+	if len(ready) > 0 {
+		k := ready[0]
+		if len(ready) > 1 {
+			k = ready[i.freeChoice(len(ready), "select")]
+		}
+		c := cases[k]
+		if c.send {
+			i.chanSendNow(c.c, c.val)
+			return result(k, nil, false)
+		}
+		v, ok := i.chanRecvNow(c.c, c.elem)
+		return result(k, v, ok)
+	}
+	if !instr.Blocking {
+		return result(-1, nil, false)
+	}
+	sw := &selectWait{}
+	for k, c := range cases {
+		if c.c == nil {
+			continue
+		}
+		w := &waiter{g: s.cur, sel: sw, caseIdx: k}
+		if c.send {
+			w.val = c.val
+			w.vc = vcCopy(s.cur.vc)
+			c.c.sendq = append(c.c.sendq, w)
+		} else {
+			c.c.recvq = append(c.c.recvq, w)
+		}
+	}
+	s.tick(s.cur)
+	s.block("select")
+	w := sw.w
+	if w == nil {
+		panic(engineError{err: "select resumed without a completed case"})
+	}
+	if w.panicMsg != "" {
+		i.guestPanic(w.panicMsg)
+	}
+	if w.vc != nil && !cases[w.caseIdx].send {
+		s.acquire(w.vc)
+	}
+	return result(sw.chosen, w.got, w.ok)
 }
+
+// ---- sync primitives under the scheduler ----
+
+func (s *scheduler) lock(i *interpreter, p *value, ls *lockState) {
+	s.yield(i, "lock")
+	for ls.held > 0 {
+		ls.waiters = append(ls.waiters, s.cur)
+		s.block("mutex lock")
+	}
+	ls.held = 1
+	s.acquire(ls.vc)
+}
+
+func (s *scheduler) unlock(i *interpreter, p *value, ls *lockState) {
+	ls.held = 0
+	s.release(&ls.vc)
+	for _, g := range ls.waiters {
+		s.wake(g)
+	}
+	ls.waiters = nil
+}
+
+func (s *scheduler) wgChanged(i *interpreter, p *value) {
+	t := i.syncT()
+	st := t.wgState(p)
+	s.release(&st.vc)
+	if t.wg[p] == 0 {
+		for _, g := range st.waiters {
+			s.wake(g)
+		}
+		st.waiters = nil
+	}
+}
+
+func (s *scheduler) wgWait(i *interpreter, p *value) {
+	t := i.syncT()
+	st := t.wgState(p)
+	s.yield(i, "wg.Wait")
+	for t.wg[p] > 0 {
+		st.waiters = append(st.waiters, s.cur)
+		s.block("WaitGroup.Wait")
+	}
+	s.acquire(st.vc)
+}
+
+func (s *scheduler) condWait(i *interpreter, fr *frame, p *value, cs *condState) {
+	// c.L.Unlock(); wait; c.L.Lock()
+	i.callLocker(fr, cs.locker, "Unlock")
+	cs.waiters = append(cs.waiters, s.cur)
+	s.block("Cond.Wait")
+	i.callLocker(fr, cs.locker, "Lock")
+}
+
+func (s *scheduler) condSignal(i *interpreter, cs *condState, all bool) {
+	s.yield(i, "cond.Signal")
+	if len(cs.waiters) == 0 {
+		return
+	}
+	if all {
+		for _, g := range cs.waiters {
+			s.wake(g)
+		}
+		cs.waiters = nil
+		return
+	}
+	s.wake(cs.waiters[0])
+	cs.waiters = cs.waiters[1:]
+}
+
+func (i *interpreter) callLocker(fr *frame, l value, method string) {
+	li := l.(iface)
+	m := i.sh.findMethod(li.t, method)
+	if m == nil {
+		panic(unsupported("Locker without " + method))
+	}
+	i.call(fr, 0, m, []value{li.v})
+}
+
+var _ = runtime.Goexit
